@@ -393,6 +393,44 @@ func opMate(g *G, method string) (interface{}, []uint64, int, interface{}) {
 	case c < 5: // mismatched trait counts (error path)
 		b = handGenome(g, 1)
 		family = "foreign"
+	case c < 7: // a sensor whose id lies above the hidden ids (legal hand-built layout), sometimes touched by no gene
+		a = lateSensorGenome(g, 1)
+		b = cloneGenome(a)
+		rand.Seed(g.seed63())
+		_, _ = genetics.VerifMutateLinkWeights(b, 1, 1, false)
+		if g.chance(0.6) {
+			reg := genetics.VerifNewEmptyPopulation()
+			maxInn, maxNode := int64(0), 0
+			for _, x := range a.Genes {
+				if x.InnovationNum > maxInn {
+					maxInn = x.InnovationNum
+				}
+			}
+			for _, n := range a.Nodes {
+				if n.Id > maxNode {
+					maxNode = n.Id
+				}
+			}
+			genetics.VerifPopSetCounters(reg, maxInn+1, int32(maxNode+1))
+			o := randOpts(g)
+			func() {
+				defer func() { _ = recover() }()
+				for k := 1 + g.intn(3); k > 0; k-- {
+					t := b
+					if g.chance(0.5) {
+						t = a
+					}
+					t.Phenotype = nil
+					if g.chance(0.5) {
+						_, _ = genetics.VerifMutateAddNode(t, reg, reg, o)
+					} else {
+						_, _ = genetics.VerifMutateAddLink(t, reg, 1, o)
+					}
+				}
+			}()
+			a.Phenotype, b.Phenotype = nil, nil
+		}
+		family = "late-io"
 	}
 	if len(a.ControlGenes) > 0 || len(b.ControlGenes) > 0 {
 		return nil, nil, 0, nil
